@@ -46,7 +46,7 @@ Definition mux_value (b : bay) (mx : mux) (oi : option nat) : value :=
 (* the select function applied to the current value of the select channel *)
 Definition sel_res (b : bay) (mx : mux) : result (option nat) :=
   match chan_at b (mx_sel mx) with
-  | Some sch => run_select (mx_fun mx) (length (mx_ins mx)) (chan_read sch)
+  | Some sch => run_select_in b mx (chan_read sch)
   | None => Err E_WIRING
   end.
 
@@ -84,10 +84,10 @@ Proof.
     - intros j He. congruence. }
   assert (S1 : Shape b1) by (apply (Shape_skel b b1); [apply (mu_skel _ _ _ _ _ U1)|apply (mu_len _ _ _ _ _ U1)|exact S]).
   unfold cb_select. destruct Hi as [Hm Hinit]. unfold mux_at in Hm. rewrite Hm, Hinit. cbn [negb].
-  unfold read_chan at 1. unfold chan_at in Hsc. rewrite Hsc. rewrite E1, Hsel.
+  unfold read_chan at 1. unfold chan_at in Hsc. rewrite Hsc. rewrite E1, (run_select_in_chans b b1 mx _ (mu_chans _ _ _ _ _ U1)), Hsel.
   assert (Hi : imux b m mx) by (split; assumption).
   destruct oi as [i|].
-  - pose proof (run_select_lt _ _ _ _ Hsel) as Hlt.
+  - pose proof (run_select_in_lt _ _ _ _ Hsel) as Hlt.
     assert (Hlt1 : i < length (mx_ins mx1)) by (rewrite F6; exact Hlt).
     destruct (select_new b1 m mx1 i S1 G1 Hi1 Hno Hlt1) as (b2 & mx2 & E2 & U2 & Honly & Hs2).
     rewrite E2.
@@ -202,7 +202,14 @@ Section Phase.
   Lemma sel_res_cur Q cur m mx mx' : Inv Q cur -> imux b0 m mx -> mstat mx' = mstat mx -> sel_res cur mx' = sel_res b0 mx.
   Proof.
     intros I Hi E. destruct (mstat_fields _ _ E) as (_ & E2 & _ & E4 & _ & E6 & _).
-    unfold sel_res. rewrite E2, E4, E6. destruct (sh_sel _ S0 m mx Hi) as [_ Hno]. rewrite (i_lvl0 _ _ I _ Hno). reflexivity.
+    unfold sel_res. rewrite E2. destruct (sh_sel _ S0 m mx Hi) as [_ Hno]. rewrite (i_lvl0 _ _ I _ Hno).
+    destruct (chan_at b0 (mx_sel mx)) as [sch|]; [|reflexivity].
+    unfold run_select_in, input_values. rewrite E4, E6.
+    assert (Ev : map (fun c => match nth_error (b_chans cur) c with Some ch => chan_read ch | None => None end) (mx_ins mx) =
+                 map (fun c => match nth_error (b_chans b0) c with Some ch => chan_read ch | None => None end) (mx_ins mx)).
+    { apply map_ext_in. intros c Hc. apply In_nth_error in Hc. destruct Hc as (j & Hj).
+      destruct (sh_ins _ S0 m mx j c Hi Hj) as [_ Hnoc]. pose proof (i_lvl0 _ _ I c Hnoc) as Ec. unfold chan_at in Ec. rewrite Ec. reflexivity. }
+    rewrite Ev. reflexivity.
   Qed.
 
   (* the output channel of m in cur, and whether it is already dirty *)
@@ -379,24 +386,46 @@ Section Phase.
   Qed.
 
   (* propagate_chan: the walk over the callbacks of one dirty channel *)
-  Lemma walk c snap : forall l Q cur,
-    Inv Q cur -> In c (b_dirty b0) -> dcbs_of cur c = snap -> NoDup l ->
-    (forall d, In d l -> In d snap /\ ~ In d Q) ->
-    exists cur', run_cbs cur c snap l = Ok cur' /\ Inv (rev l ++ Q) cur' /\ dcbs_of cur' c = snap.
+  Lemma next_after_mid pre d rest : ~ In d pre -> next_after d (pre ++ d :: rest) = Some (match rest with y :: _ => Some y | [] => None end).
   Proof.
-    induction l as [|d l IH]; intros Q cur I Hcd Hsnap Hnd Hl.
-    - exists cur. split; [reflexivity|]. split; [exact I|exact Hsnap].
-    - apply NoDup_cons_iff in Hnd. destruct Hnd as [Hdl Hnd'].
-      destruct (Hl d (or_introl eq_refl)) as [Hds Hdq].
-      destruct (step_dcb Q cur d c I Hdq) as (cur1 & E1 & I1 & Hsame); [rewrite Hsnap; exact Hds|exact Hcd|].
-      cbn [run_cbs]. rewrite E1, Hsame, Hsnap, dcbs_eqb_refl.
-      destruct (IH (d :: Q) cur1 I1 Hcd) as (cur' & E2 & I2 & Hs2).
-      + rewrite Hsame. exact Hsnap.
-      + exact Hnd'.
-      + intros d' Hd'. destruct (Hl d' (or_intror Hd')) as [A B]. split; [exact A|].
-        intros [H|H]; [subst; contradiction|contradiction].
-      + exists cur'. split; [exact E2|]. split; [|exact Hs2].
-        cbn [rev]. rewrite <- app_assoc. exact I2.
+    intros Hn. induction pre as [|x pre IH]; cbn.
+    - rewrite dcb_eqb_refl. reflexivity.
+    - destruct (dcb_eqb d x) eqn:E; [apply dcb_eqb_eq in E; subst; exfalso; apply Hn; left; reflexivity|].
+      apply IH. intros H. apply Hn. right. exact H.
+  Qed.
+
+  Lemma walk_from_spec c : forall rest pre d Q cur fuel,
+    Inv Q cur -> In c (b_dirty b0) -> dcbs_of cur c = pre ++ d :: rest -> NoDup (pre ++ d :: rest) -> length rest < fuel ->
+    (forall d', In d' (d :: rest) -> ~ In d' Q) ->
+    exists cur', walk_from fuel cur c d = Ok cur' /\ Inv (rev (d :: rest) ++ Q) cur' /\ dcbs_of cur' c = pre ++ d :: rest.
+  Proof.
+    induction rest as [|d2 rest IH]; intros pre d Q cur fuel I Hcd Hl Hnd Hf Hq; (destruct fuel as [|fuel]; [lia|]).
+    - destruct (step_dcb Q cur d c I (Hq d (or_introl eq_refl))) as (cur1 & E1 & I1 & Hsame); [rewrite Hl; apply in_or_app; right; left; reflexivity|exact Hcd|].
+      cbn [walk_from]. rewrite E1, Hsame, Hl, next_after_mid.
+      + exists cur1. split; [reflexivity|]. split; [exact I1|rewrite Hsame; exact Hl].
+      + apply NoDup_remove_2 in Hnd. intros H. apply Hnd. apply in_or_app. left. exact H.
+    - destruct (step_dcb Q cur d c I (Hq d (or_introl eq_refl))) as (cur1 & E1 & I1 & Hsame); [rewrite Hl; apply in_or_app; right; left; reflexivity|exact Hcd|].
+      cbn [walk_from]. rewrite E1, Hsame, Hl, next_after_mid.
+      2:{ apply NoDup_remove_2 in Hnd. intros H. apply Hnd. apply in_or_app. left. exact H. }
+      assert (Hl1 : dcbs_of cur1 c = (pre ++ [d]) ++ d2 :: rest) by (rewrite Hsame, Hl, <- app_assoc; reflexivity).
+      assert (Hnd1 : NoDup ((pre ++ [d]) ++ d2 :: rest)) by (rewrite <- app_assoc; exact Hnd).
+      destruct (IH (pre ++ [d]) d2 (d :: Q) cur1 fuel I1 Hcd Hl1 Hnd1) as (cur' & E2 & I2 & Hs2).
+      + cbn [length] in Hf. lia.
+      + intros d' Hd' [H|H].
+        * subst d'. apply NoDup_remove_2 in Hnd. apply Hnd. apply in_or_app. right. exact Hd'.
+        * apply (Hq d' (or_intror Hd') H).
+      + exists cur'. split; [exact E2|]. split; [|rewrite Hs2, <- app_assoc; reflexivity].
+        cbn [rev] in *. rewrite <- !app_assoc in *. cbn [app] in *. exact I2.
+  Qed.
+
+  Lemma walk c Q cur :
+    Inv Q cur -> In c (b_dirty b0) -> NoDup (dcbs_of cur c) -> (forall d, In d (dcbs_of cur c) -> ~ In d Q) ->
+    exists cur', run_cbs cur c = Ok cur' /\ Inv (rev (dcbs_of cur c) ++ Q) cur' /\ dcbs_of cur' c = dcbs_of cur c.
+  Proof.
+    intros I Hcd Hnd Hq. unfold run_cbs. destruct (dcbs_of cur c) as [|d rest] eqn:El.
+    - exists cur. split; [reflexivity|]. split; [exact I|exact El].
+    - apply (walk_from_spec c rest [] d Q cur (walk_fuel cur c) I Hcd El Hnd); [|exact Hq].
+      unfold walk_fuel. rewrite El. cbn [length]. lia.
   Qed.
 
   (* ---------------------------------------------------------------- the walk over the dirty list *)
@@ -454,8 +483,8 @@ Section Phase.
       pose proof (i_cbs _ _ I) as Gc.
       assert (HcP : ~ In c P).
       { intros H. rewrite EP in dirty_nodup. apply NoDup_remove_2 in dirty_nodup. apply dirty_nodup. apply in_or_app. left. exact H. }
-      destruct (walk c (dcbs_of cur c) (dcbs_of cur c) Q cur I Hcd eq_refl (g_nodup _ Gc c)) as (cur1 & E1 & I1 & _).
-      { intros d Hd. split; [exact Hd|]. intros Hq. destruct d as [m|m j|m].
+      destruct (walk c Q cur I Hcd (g_nodup _ Gc c)) as (cur1 & E1 & I1 & _).
+      { intros d Hd. intros Hq. destruct d as [m|m j|m].
         - destruct (l_qsel _ _ L m Hq) as (mx & Hi & Hp).
           apply (g_sel _ Gc) in Hd. destruct Hd as (mxc & Hic & Hs).
           destruct (imux_cur _ _ _ _ I Hic) as (mx2 & Hi2 & E). pose proof (imux_fun _ _ _ _ Hi Hi2). subst mx2.
@@ -517,7 +546,7 @@ Section Phase.
       assert (Hout : is_out b1 c).
       { destruct (HO c Hc) as (m & mx & Hi & Ho). destruct (i_mux _ _ I m mx Hi) as (mx' & Hi' & Es & _).
         destruct (mstat_fields _ _ Es) as (_ & _ & E3 & _). exists m, mx'. split; [exact Hi'|congruence]. }
-      rewrite (out_no_cbs b1 c (Inv_shape _ _ I) (i_cbs _ _ I) Hout). cbn [run_cbs].
+      unfold run_cbs. rewrite (out_no_cbs b1 c (Inv_shape _ _ I) (i_cbs _ _ I) Hout).
       replace (S (length (b_dirty b0) + j)) with (length (b_dirty b0) + S j) by lia.
       apply (IH (S j) fuel O EO); [lia|lia|exact HO].
   Qed.
